@@ -37,6 +37,15 @@ ASSUMPTIONS = [
     "expected shortfall / VaR at p*N within 1e-9 of an integer: either adjacent order-statistic count accepted (as the property states)",
     "columns subsampled to <= 6 per call (first, last, seeded others)",
 ]
+ANCHORS = ['pfhedge.nn.functional:exp_utility',
+           'pfhedge.nn.functional:isoelastic_utility',
+           'pfhedge.nn.functional:entropic_risk_measure',
+           'pfhedge.nn.functional:topp',
+           'pfhedge.nn.functional:expected_shortfall',
+           'pfhedge.nn.functional:value_at_risk',
+           'pfhedge.nn.functional:quadratic_cvar',
+           'pfhedge.nn.modules.loss:OCE.forward']
+PYTEST_WORKLOAD = True  # thorough tier also runs /repo/tests with these passive monitors attached (DESIGN.md 2.7)
 DECIDING = ["entropic_risk_measure", "expected_shortfall", "value_at_risk", "quadratic_cvar", "exp_utility", "isoelastic_utility",
             "topp", "module.EntropicLoss", "module.IsoelasticLoss", "module.OCE", "module.target_first"]
 REQUIRED_BRANCHES = ["es.pN_integral", "es.pN_fractional", "var.min", "var.max", "var.kth", "var.between", "dim.none",
